@@ -117,8 +117,12 @@ def diff_to_failure(inst, impl, model):
     mm = {key(l): l for l in model}
     for l in impl:
         p = l.split()
-        if p[0] in ("reach", "node") and key(l) in mm and mm[key(l)] != l:
-            if p[0] == "reach":
+        if p[0] in ("reach", "node", "maxform") and key(l) in mm and mm[key(l)] != l:
+            if p[0] == "maxform":
+                out.append(("formation-limit-not-the-smaller-one",
+                            "implementation [%s], the smaller of the type's and the route segment's limit (model, theorem "
+                            "C17_formation_limit_is_the_smaller_one) [%s]" % (l, mm[key(l)])))
+            elif p[0] == "reach":
                 a, b = set(p[3:]), set(mm[key(l)].split()[3:])
                 out.append(("can-reach-not-the-documented-rule",
                             "node %s: implementation can_reach to %s, documented rule (model, theorem C17_can_reach_iff) "
